@@ -469,39 +469,71 @@ def stress(chk, ctx, drv, variant, scen_list, timeout, env=None):
     return n_builds
 
 
-def hunt(chk, ctx, drv, nproc, nbuilds, width, budget_s):
-    """Lost wake-up hunt: `nproc` driver processes in parallel, each running `nbuilds` full builds of a fan of `width` leaves whose
-    completions race from threads.  The engine enters its wait block after every completion it has processed; a completion that slips
-    between an unprotected emptiness check and the wait is lost, and if it was the last one build() never returns: a process that does
-    not finish within the budget is a hang."""
-    from concurrent.futures import ThreadPoolExecutor
-    jobs = []
+def hunt(chk, ctx, drv, nproc, budget_s, stall_s=15, configs=((32, 0), (24, 0), (48, 0), (24, 20), (32, 50), (16, 0))):
+    """Lost wake-up hunt: `nproc` driver processes in parallel for `budget_s` seconds, each running full builds of a fan of W leaves
+    whose completions race from threads released within [0, maxus) microseconds (sched=threads:<seed>:<maxus>; 0 = all at once).
+    The engine re-enters its wait block after every batch of completions it has processed; a completion that slips between an
+    unprotected emptiness check and the wait is lost, and if it was the last one build() never returns.
+    A HANG is a live driver whose output has not grown for `stall_s` seconds (one build takes milliseconds); running out of budget while
+    still making progress is not a finding."""
+    import subprocess
+    procs = []
+    nb = 200000
     for i in range(nproc):
+        w, maxus = configs[i % len(configs)]
         seed0 = chk.rng.randrange(1 << 20)
-        lines = fan_scenario(width, nbuilds, lambda b: " sched=threads:%d" % (seed0 + b))
-        jobs.append((i, lines))
-
-    def one(job):
-        i, lines = job
-        return run_variant(drv, lines, os.path.join(ctx["root"], "hunt-%d" % i), "scenario", timeout=budget_s)
+        lines = fan_scenario(w, nb, lambda b: " sched=threads:%d:%d" % (seed0 + b, maxus))
+        wd = os.path.join(ctx["root"], "hunt-%d" % i)
+        os.makedirs(wd, exist_ok=True)
+        sp = os.path.join(wd, "scenario.txt")
+        open(sp, "w").write("\n".join(lines) + "\n")
+        op = os.path.join(wd, "out.txt")
+        p = subprocess.Popen([drv, sp, wd], stdout=open(op, "w"), stderr=subprocess.DEVNULL)
+        procs.append(dict(p=p, wd=wd, out=op, w=w, maxus=maxus, seed0=seed0, size=0, last=time.time(), hung=False, rc=None))
     t0 = time.time()
-    with ThreadPoolExecutor(max_workers=nproc) as ex:
-        res = list(ex.map(one, jobs))
+    while True:
+        time.sleep(0.25)
+        now = time.time()
+        alive = 0
+        for q in procs:
+            if q["rc"] is not None or q["hung"]:
+                continue
+            rc = q["p"].poll()
+            if rc is not None:
+                q["rc"] = rc
+                continue
+            alive += 1
+            sz = os.path.getsize(q["out"])
+            if sz != q["size"]:
+                q["size"], q["last"] = sz, now
+            elif now - q["last"] >= stall_s:
+                q["hung"] = True
+        over = now - t0 >= budget_s
+        # past the budget only processes that are silent (possible hangs) are given the time to be told apart from slow ones
+        if alive == 0 or any(q["hung"] for q in procs) or (over and all(q["rc"] is not None or q["hung"] or now - q["last"] < 1.0 for q in procs)):
+            break
+    for q in procs:
+        if q["rc"] is None:
+            q["p"].kill(); q["p"].wait()
     done = 0
-    for (i, lines), r in zip(jobs, res):
-        fin = sum(1 for l in r["out"] if l.startswith("result "))
+    per_cfg = {}
+    for i, q in enumerate(procs):
+        out = open(q["out"]).read().splitlines()
+        fin = sum(1 for l in out if l.startswith("result "))
         done += fin
+        per_cfg["w%d/us%d" % (q["w"], q["maxus"])] = per_cfg.get("w%d/us%d" % (q["w"], q["maxus"]), 0) + fin
         chk.count(("hunt", i), n=max(1, fin))
-        if r["rc"] == -9 and fin < nbuilds:
-            # distinguish a slow machine from a hang: a hung driver stops printing results
-            chk.violation("engine-hang", "build() did not return in a fan of %d racing completions: %d of %d builds had finished when the driver was killed after %ds (a lost wake-up needs a completion inside a window of tens of nanoseconds; it shows about once in 2*10^4 such builds when the emptiness check is made outside the mutex)" % (width, fin, nbuilds, budget_s),
-                          dict(scenario=lines, variant="hooks", builds_finished=fin, note="rare by nature: replay repeats the scenario 20 times"), found_input=True,
+        short = fan_scenario(q["w"], 400, lambda b: " sched=threads:%d:%d" % (q["seed0"] + max(0, fin - 200) + b, q["maxus"]))
+        if q["hung"]:
+            chk.violation("engine-hang", "build() did not return in a fan of %d completions racing within %d us: the driver had finished %d builds and then printed nothing for %ds (lost wake-up or deadlock)" % (q["w"], q["maxus"], fin, stall_s),
+                          dict(scenario=short, variant="hooks", builds_finished=fin, note="rare by nature (a window of tens of nanoseconds): replay repeats 400 such builds 20 times"), found_input=True,
                           broken="c06 oracle (build returns) on implementation")
-        elif r["rc"] != 0:
-            chk.violation("engine-crash", "the engine driver crashed (rc=%s) in the racing fan" % r["rc"], dict(scenario=lines, stderr=r["err"][-2000:]), found_input=True,
+        elif q["rc"] not in (None, 0):
+            chk.violation("engine-crash", "the engine driver crashed (rc=%s) in the racing fan after %d builds" % (q["rc"], fin), dict(scenario=short, variant="hooks"), found_input=True,
                           broken="c06 oracle (no crash) on implementation")
-        elif any(l.startswith(("LATE-CALLBACK", "leftover")) for l in r["out"]):
-            chk.violation("late-callback", "a callback outside build() in the racing fan", dict(scenario=lines), found_input=True, broken="c06 oracle (no late callback)")
+        elif any(l.startswith(("LATE-CALLBACK", "leftover")) for l in out):
+            chk.violation("late-callback", "a callback outside build() in the racing fan", dict(scenario=short, variant="hooks"), found_input=True, broken="c06 oracle (no late callback)")
+    ctx["hunt_cfg"] = per_cfg
     return done, round(time.time() - t0, 1)
 
 
@@ -648,7 +680,7 @@ def run_in(chk, drv, model, emodel, root):
     hunt_builds, t_hunt = (0, 0.0)
     if not ctx.get("hang"):
         np_ = max(2, min(8, vlib.NCPU // 2))
-        hunt_builds, t_hunt = hunt(chk, ctx, drv, chk.n(min(4, np_), np_), chk.n(500, 6000), 24, chk.n(60, 600))
+        hunt_builds, t_hunt = hunt(chk, ctx, drv, chk.n(min(6, np_), np_), chk.n(25, 120))
 
     # ---- (e) ThreadSanitizer (thorough tier)
     tsan_builds = 0
